@@ -57,4 +57,17 @@ CHECKS['C20'] = {'engine': 'E-A', 'technique': 'exhaustive enumeration of declar
     'text': 'For every declaration (all positioned/aligned/Em/class-align ones included) and every distinct accepted value: parsed==parsed, constructed==parsed, every one-leaf mutation at any depth unequal, twin class/None/non-packet unequal, repr is a str, nothing raises.',
     'note': _EA_NOTE}
 
+CHECKS['C03'] = {'engine': 'E-A', 'technique': 'exhaustive differential enumeration: every declaration under all 16 code-generation option combinations x all inputs up to a bound x parsed and ill values',
+    'text': 'Each declaration (runs of fixed-size fields of every width/order/sign, variable fields around runs, Bits, described fields, embed, class options, the component alphabet x wrappers) is compiled 16 times; unpack outcome (values, end offset, PacketError/other) and pack outcome (bytes / PacketError) must coincide across all variants for every input up to the bound and every parsed or ill-valued packet; the harness verifies each variant really runs the generated resp. generic path.',
+    'note': 'No reference model: the implementation is compared with itself. Bounded as E-A. Wrong-length values for constant Data excluded (not of the declared type).'}
+CHECKS['C10'] = {'engine': 'E-A', 'technique': _EA_TECH + 'position-revealing ramp inputs, parse positions and pack placement vs the reference positioning rule',
+    'text': 'at x 3 references x constant/field/callable, shift x 4, aligned x 3 references x 4 targets on Int/Data/repeated/reference/Em/Int(3), x 3 wrappers x start offsets 0..3, class align, per-element alignment, pairs of positioned fields: unpack must read where the rule says (values, end offset), pack must place every field where the same rule says with "." in skipped bytes or raise on overlap.',
+    'note': _EA_NOTE}
+CHECKS['C12'] = {'engine': 'E-A', 'technique': _EA_TECH + 'failure location compared with the field the reference interpreter blames',
+    'text': 'Every rejected input of the enumeration (all truncation points, corrupted counts, missing delimiters; depth 0..2; generated/generic/vectorised) and every ill value at every leaf on pack: PacketError, phase flag, innermost (offset, field or containing run, class), outward enclosing fields, str(e), silent=None, non-bytes -> ValueError.',
+    'note': _EA_NOTE + ' Outer stack entries compared by name/class only.'}
+CHECKS['C14'] = {'engine': 'E-A', 'technique': 'exhaustive metamorphic enumeration: declarations x inputs x all prefixes/suffixes up to a bound, implementation compared with itself',
+    'text': 'For every in-scope declaration and every input: accepted -> for all (prefix, suffix) pairs up to length 1 (quick) / 2 (thorough) over the declaration alphabet the values are equal and unpack_impl returns len(prefix)+end; rejected -> error offsets shift by len(prefix).',
+    'note': 'Reference used only to decide scope (region extent, regex-ended regions, reads before the offset). Excludes start-of-data positioning, class/element alignment, read-to-end, consume_delimiter=False.'}
+
 NOT_APPLICABLE = {}
